@@ -461,6 +461,11 @@ def add_lifecycles(rnd, scn, p_derived=0.08, p_entry=0.12, p_used=0.06, p_prior=
         # the Device object was already simulated on before (and before it is moved / saved / copied)
         fu = scn["options"].get("field_units", "mT")
         scn["device_used_before"] = {"steps": rnd.choice([2, 3]), "B": r3(0.2 * FIELD_FACTOR[fu]), "terminal_psi": rnd.choice(["zero", "none"])}
+        if rnd.random() < 0.5:
+            lay = scn["device"]["layer"]
+            attr = rnd.choice(["london_lambda", "london_lambda", "thickness", "gamma", "u"])
+            scn["device_used_before"]["layer_was"] = {attr: {"london_lambda": r3(lay["lam"] * 2), "thickness": r3(lay["d"] * 0.5), "gamma": lay["gamma"] + 1.0, "u": lay["u"] * 2}[attr]}
+            scn["device_used_before"]["screening"] = bool(scn["options"].get("include_screening"))
     if rnd.random() < p_prior and not scn.get("options_late") and not scn.get("reload_phase") and not scn.get("seed_phase"):
         # the SolverOptions object has a history: it was used before on a variant of the device and is
         # handed over untouched, or it was constructed (and maybe used) with other values of some fields
